@@ -173,6 +173,9 @@ func (P *Program) verifyFunction(con *Contract) (res *FuncResult) {
 		g.groupObligations(g.fnKey+"#postgroup@"+site, posts)
 		if con.HasAssigns {
 			fr.frameObligation(r.st, site)
+			if con.NoAlloc {
+				g.oblige("noalloc", site, r.st.path, "(= "+r.st.heap.get(g, g.topKey())+" "+fr.entry.heap.get(g, g.topKey())+")", "noalloc: the function allocates nothing")
+			}
 		}
 	}
 	if len(fr.rets) == 0 {
@@ -297,6 +300,10 @@ func (fr *Frame) frameAllowed() (map[string][]string, map[string]bool) {
 				}
 			}
 		case *SSel:
+			if k, _ := g.typeFieldKey(x, con.Pkg, fr.isLocalName); k != "" {
+				allowAll[k] = true // T.f: field f of every object of type T
+				continue
+			}
 			base := fr.evalSpec(x.X, ctx)
 			a, _ := fr.fieldAddr(base, x.Name)
 			if a.cell != nil {
